@@ -45,7 +45,7 @@ def r1_fin_arm(ctx):
 def r2_single_sender_owner(ctx):
     n_send_sites = 0
     bad = 0
-    for key, body in ctx.P.bodies.items():
+    for key, body in ctx.P.scan():
         for c in body.calls():
             if (c.norm or "").endswith("Clone>::clone") and c.targs:
                 pass
@@ -66,7 +66,7 @@ def r2_single_sender_owner(ctx):
 
 def r3_eof_flag(ctx):
     n = 0
-    for key, body in ctx.P.bodies.items():
+    for key, body in ctx.P.scan():
         if not key.startswith("session::stream_reader::"):
             continue
         o = ctx.origins(body)
@@ -98,7 +98,7 @@ def r3_eof_flag(ctx):
 
 def fin_emitters(ctx):
     out = []
-    for key, body in ctx.P.bodies.items():
+    for key, body in ctx.P.scan():
         if key.startswith(("<protocol::frame", "protocol::frame")):
             continue
         has_fin = False
@@ -114,7 +114,7 @@ def fin_emitters(ctx):
 def forwarding_loops(ctx):
     """(body, send call, loop blocks, kind) for every cycle that reads a source and sends on a stream"""
     out = []
-    for key, body in ctx.P.bodies.items():
+    for key, body in ctx.P.scan():
         sends = calls_norm(body, *SENDS)
         if not sends:
             continue
@@ -132,7 +132,7 @@ def forwarding_loops(ctx):
 def sink_loops(ctx):
     """(body, write call, loop) for cycles that read a StreamReader and write_all into a socket half"""
     out = []
-    for key, body in ctx.P.bodies.items():
+    for key, body in ctx.P.scan():
         rd = calls_norm(body, "StreamReader::read")
         if not rd:
             continue
@@ -196,7 +196,7 @@ def r4_send_side(ctx):
 def r5_state_release(ctx):
     """entries of the two stream tables are removed somewhere other than the FIN arm and close()"""
     rm_sites = []
-    for key, body in ctx.P.bodies.items():
+    for key, body in ctx.P.scan():
         if not key.startswith("session::session::"):
             continue
         fn = key.replace(S, "").split("::{closure")[0]
